@@ -111,6 +111,12 @@ impl PanicInfo {
         if let Some(i) = loc.find("/repo/") {
             return loc[i + 6..].to_string();
         }
+        // a scratch worktree of /repo (bin/try_seeded_wt.sh): same relative path
+        if let Ok(root) = std::env::var("VERIF_REPO_ROOT") {
+            if let Some(i) = loc.find(&root) {
+                return loc[i + root.len()..].trim_start_matches('/').to_string();
+            }
+        }
         if let Some(i) = loc.find("/registry/src/") {
             let rest = &loc[i + 14..];
             if let Some(j) = rest.find('/') {
